@@ -380,7 +380,8 @@ fn sweep(ctx: &Ctx, det: Detector, p: &Profile, rep_cover: &mut Cover, viols: &m
 		.par_iter()
 		.map(|(lo, hi)| {
 			let nt_path = ctx.work.join(format!("nt-{}-{}-{}-{lo}.bin", det.name(), p.name, p.depth));
-			let mut args: Vec<String> = vec!["sweep".into(), p.name.into(), p.depth.to_string(), lo.to_string(), hi.to_string(), "--fixtures".into(), ctx.fixtures_file.display().to_string()];
+			let inflight_path = ctx.work.join(format!("inflight-{}-{}-{}-{lo}.txt", det.name(), p.name, p.depth));
+			let mut args: Vec<String> = vec!["sweep".into(), p.name.into(), p.depth.to_string(), lo.to_string(), hi.to_string(), "--fixtures".into(), ctx.fixtures_file.display().to_string(), "--inflight".into(), inflight_path.display().to_string()];
 			if collect_nt {
 				args.push("--nt-file".into());
 				args.push(nt_path.display().to_string());
@@ -399,20 +400,15 @@ fn sweep(ctx: &Ctx, det: Detector, p: &Profile, rep_cover: &mut Cover, viols: &m
 			if out.timed_out {
 				caps.push(format!("{} sweep {} depth {} units {lo}..{hi}: horizon of {} s fired", det.name(), p.name, p.depth, horizon.as_secs()));
 			} else if !clean {
-				// attribute: re-run verbosely, the last B without a following line is the culprit
-				let mut vargs = args.clone();
-				vargs.retain(|a| a != "--nt-file" && !a.ends_with(".bin"));
-				vargs.push("--verbose".into());
-				let again = run_proc(sweep_cmd(ctx, det, &vargs), horizon);
-				let diag = detector_diag(&again.stderr).or_else(|| detector_diag(&out.stderr));
-				let last_b = again.stdout.lines().rev().find(|l| l.starts_with("B ")).map(|l| l[2..].to_owned());
-				let again_clean = again.code == Some(0) && again.stdout.lines().any(|l| l.starts_with("Z "));
-				match (again_clean, last_b) {
-					(false, Some(tok)) => {
-						let how = match (&diag, again.signal, again.code) {
+				// attribute: the worker wrote the history in flight to its --inflight file before executing it
+				let diag = detector_diag(&out.stderr);
+				let tok = std::fs::read_to_string(&inflight_path).ok().map(|s| s.trim().to_owned()).filter(|t| !t.is_empty());
+				match tok {
+					Some(tok) => {
+						let how = match (&diag, out.signal, out.code) {
 							(Some((k, text)), _, _) => format!("{k}: {text}"),
-							(None, Some(sig), _) => format!("worker killed by signal {sig}; stderr: {}", report::truncate(again.stderr.trim(), 300)),
-							(None, None, code) => format!("worker exited with {code:?}; stderr: {}", report::truncate(again.stderr.trim(), 300)),
+							(None, Some(sig), _) => format!("worker killed by signal {sig}; stderr: {}", report::truncate(out.stderr.trim(), 300)),
+							(None, None, code) => format!("worker exited with {code:?}; stderr: {}", report::truncate(out.stderr.trim(), 300)),
 						};
 						if matches!(diag, Some(("unsupported", _))) {
 							machinery(&format!("{} worker: {how}", det.name()));
@@ -425,8 +421,8 @@ fn sweep(ctx: &Ctx, det: Detector, p: &Profile, rep_cover: &mut Cover, viols: &m
 						v.push(violation_for_history(det.name(), &tok, class, 0, &how));
 						caps.push(format!("{} sweep {} depth {} units {lo}..{hi}: stopped at the first crashing history", det.name(), p.name, p.depth));
 					}
-					_ => machinery(&format!(
-						"{} sweep worker for units {lo}..{hi} of {} failed (exit {:?}, signal {:?}) and the failure cannot be attributed to one history; stderr: {}",
+					None => machinery(&format!(
+						"{} sweep worker for units {lo}..{hi} of {} failed (exit {:?}, signal {:?}) before it executed any history; stderr: {}",
 						det.name(),
 						p.name,
 						out.code,
@@ -434,8 +430,8 @@ fn sweep(ctx: &Ctx, det: Detector, p: &Profile, rep_cover: &mut Cover, viols: &m
 						report::truncate(out.stderr.trim(), 600)
 					)),
 				}
-				parsed = parse_out(&again.stdout);
 			}
+			let _ = std::fs::remove_file(&inflight_path);
 			let mut nt = Vec::new();
 			if collect_nt {
 				if let Ok(b) = std::fs::read(&nt_path) {
@@ -722,7 +718,7 @@ pub fn run(rep: &mut Report) {
 	let mut totals = Counters::default();
 
 	// ---------------- phase N: native sweep of all histories
-	let native_profiles: Vec<Profile> = if thorough { vec![Profile::wide().with_depth(5), Profile::full()] } else { vec![Profile::wide()] };
+	let native_profiles: Vec<Profile> = if thorough { vec![Profile::wide(), Profile::wide0(), Profile::full()] } else { vec![Profile::wide()] };
 	let mut native_histories = 0u64;
 	let mut shapes: HashSet<u64> = HashSet::new();
 	for p in &native_profiles {
@@ -899,6 +895,8 @@ pub fn run(rep: &mut Report) {
 	}
 	guard("freeze error path: dangling key in an unreachable node", totals.freeze_err_unreachable_dangling);
 	guard("freeze error path: empty graph / reachable dangling key", totals.freeze_err_other);
+	guard("freeze error path: cycle through unnamed nodes", totals.freeze_err_unnamed_cycle);
+	guard("known answers on wire-compatible schemas (incl. graphs with unreachable empty unions)", totals.known_answers);
 	guard("freeze ok", totals.freeze_ok);
 	guard("values that borrow from their input", totals.values_with_borrows);
 	guard("values inspected after schema and reader were dropped", totals.inspections_after_owner_gone);
@@ -926,11 +924,11 @@ pub fn run(rep: &mut Report) {
 	confirmed.sort_by_key(|v| v.replay["history"].as_str().or(v.replay["case"].as_str()).map(|s| s.len()).unwrap_or(0));
 
 	rep.rule = format!(
-		"A case is a history (sequence of operations of vmiri::ops::Op, admissible = accepted by the borrow checker: only `SerializerConfig before the schema handle it borrows` constrains the order) or a two-thread case (sharing mode, two programs of <= {} operations over {:?}, one merge or free-running). Native: every history of the `wide` alphabet to depth {}{} ({} histories). Miri: the `core` alphabet to depth {}{} plus {} extras (every bad graph: 4 node kinds x 7 positions + empty graph, alone / after / before a live schema; every edit on a parsed and on a built graph, frozen and used). Non-trivial history = dereferences schema nodes at least once AND contains a drop / move / Arc clone / edit / error-path freeze; counted as distinct history tokens. Thread cases: all {} unordered pairs of programs, all merges natively with a baton, the pairs with <= {} operations in all free-running under Miri, the merges of programs of <= {} operations also under Miri.",
+		"A case is a history (sequence of operations of vmiri::ops::Op, admissible = accepted by the borrow checker: only `SerializerConfig before the schema handle it borrows` constrains the order) or a two-thread case (sharing mode, two programs of <= {} operations over {:?}, one merge or free-running). Native: every history of the `wide` alphabet to depth {}{} ({} histories) and the extras. Miri: the `core` alphabet to depth {}{} plus {} extras (every bad graph alone: 4 node kinds x 7 positions x keys {{len, len+1, usize::MAX}}, the empty graph, 4 unnamed cycles; representatives after / before a live schema; every schema text and built graph with empty unions parsed / built, frozen and used; every edit incl. detach+pop, frozen and used). Non-trivial history = dereferences schema nodes at least once AND contains a drop / move / Arc clone / edit / error-path freeze; counted as distinct history tokens. Thread cases: all {} unordered pairs of programs, all merges natively with a baton, the pairs with <= {} operations in all free-running under Miri, the merges of programs of <= {} operations also under Miri.",
 		if thorough { 3 } else { 2 },
 		TOp::ALL.iter().map(|t| t.letter()).collect::<String>(),
-		if thorough { 5 } else { 4 },
-		if thorough { " and of the `full` alphabet (6 codecs, 3 reader kinds, 29 bad graphs, 5 targets) to depth 4" } else { "" },
+		4,
+		if thorough { ", of `wide0` (one schema text / graph) to depth 5 and of the `full` alphabet (6 codecs, 3 reader kinds, 5 texts, 6 graphs, 27 bad graphs, 5 targets, 7 edits) to depth 4" } else { "" },
 		native_histories,
 		core.depth,
 		if thorough { " and the narrower `core4` alphabet to depth 4" } else { "" },
@@ -943,7 +941,8 @@ pub fn run(rep: &mut Report) {
 		"Miri (Stacked Borrows, data-race detector and leak check on, isolation off) is the oracle for pure-Rust configurations; C codecs (bzip2, xz, zstandard) are only run natively, under AddressSanitizer and under valgrind (thorough tier).".to_owned(),
 		"Under Miri `Parse`/`ParseS` clone a SchemaMut that was parsed once per Miri process (parsing is safe code and costs 0.5 s per call there); the native, ASan and valgrind runs parse every time.".to_owned(),
 		"The interpreter erases lifetimes with raw pointers; the abstract tracker (vmiri::ops::Abs) only generates programs rustc accepts. A history that is not admissible is refused (machinery error).".to_owned(),
-		"Unnamed cycles are excluded from the graphs (defect D5, C19).".to_owned(),
+		"Unnamed cycles only occur as bad graphs whose freeze must return Err (D5 is fixed in /repo); no edit can create one.".to_owned(),
+		"Known answers (value 0 <-> fixture datum, value 2 rejected) are demanded of every schema that is SCHEMA_TEXT on the wire, whatever unreachable nodes its graph holds: a union node whose lookup table was never built is a node that is not fully initialised.".to_owned(),
 	];
 	rep.extra.insert("detectors".to_owned(), json!({"native": native_histories, "miri_histories": ms.done.len(), "miri_thread_cases": mt.done.len(), "asan": asan_histories, "valgrind": valgrind_histories}));
 	rep.cover.merge(cover);
